@@ -11,6 +11,7 @@ import (
 	"go/parser"
 	"go/token"
 	"path/filepath"
+	"regexp"
 	"strings"
 )
 
@@ -32,6 +33,108 @@ func exprStr(fset *token.FileSet, e ast.Expr) string {
 		return true
 	})
 	return strings.TrimSpace(b.String())
+}
+
+var runShapes = []*regexp.Regexp{
+	regexp.MustCompile(`^expr \(call flag (StringVar|UintVar) (cim|bin|cas|nam|off0) "[^"]*" ("[^"]*"|0x[0-9a-fA-F]+|[0-9]+) ` + "`[^`]*`$"),
+	regexp.MustCompile(`^expr \(call flag Parse$`),
+	regexp.MustCompile(`^decl off = \(call uint16 off0$`),
+	regexp.MustCompile(`^if \(== nam "" \{assign nam = cim\}$`),
+	regexp.MustCompile(`^assign b, err := \(call os ReadFile cim$`),
+	regexp.MustCompile(`^if \(!= err nil \{return err\}$`),
+	regexp.MustCompile(`^assign f, err := \(call os Create (bin|cas)$`),
+	regexp.MustCompile(`^defer \(call f Close$`),
+	regexp.MustCompile(`^assign w := \(call bufio NewWriter f$`),
+	regexp.MustCompile(`^assign err = \(call w WriteByte 0x[0-9a-fA-F]+$`),
+	regexp.MustCompile(`^assign err = \(call writeU16 w (off|\(- \(\+ off \(call uint16 \(call len b 1)$`),
+	regexp.MustCompile(`^assign _, err = \(call w Write (b|header|typeBin)$`),
+	regexp.MustCompile(`^assign err = \(call writeName w \(call byte nam$`),
+	regexp.MustCompile(`^return \(call w Flush$`),
+}
+
+var u16Shapes = []*regexp.Regexp{
+	regexp.MustCompile(`^decl\? buf \[2\]byte$`),
+	regexp.MustCompile(`^assign buf 0 = \(call uint8 u16$`),
+	regexp.MustCompile(`^assign buf 1 = \(call uint8 \(>> u16 8$`),
+	regexp.MustCompile(`^assign _, err := \(call w Write \(slice buf$`),
+	regexp.MustCompile(`^return err$`),
+}
+var nameShapes = []*regexp.Regexp{
+	regexp.MustCompile(`^assign buf := byte( 0x0*20)+$`),
+	regexp.MustCompile(`^if \(> \(call len name [0-9]+ \{assign name = \(slice name [0-9]+\}$`),
+	regexp.MustCompile(`^expr \(call copy buf name$`),
+	regexp.MustCompile(`^assign _, err := \(call w Write buf$`),
+	regexp.MustCompile(`^return err$`),
+}
+var mainShapes = []*regexp.Regexp{
+	regexp.MustCompile(`^assign err := \(call run$`),
+	regexp.MustCompile(`^if \(!= err nil \{expr \(call log Fatal err\}$`),
+}
+
+func checkShapes(fset *token.FileSet, tool, fn string, body *ast.BlockStmt, shapes []*regexp.Regexp) {
+	for _, st := range body.List {
+		sh := stmtShape(fset, st)
+		ok := false
+		for _, re := range shapes {
+			if re.MatchString(sh) {
+				ok = true
+				break
+			}
+		}
+		if !ok {
+			panic(refusal(tool + ": " + fn + "() contains a statement of an unexpected shape: " + sh))
+		}
+	}
+}
+
+// stmtShape: a canonical one-line rendering of a statement (identifiers, literals, operators and calls in source order)
+func stmtShape(fset *token.FileSet, st ast.Stmt) string {
+	join := func(es []ast.Expr) string {
+		var q []string
+		for _, e := range es {
+			q = append(q, exprStr(fset, e))
+		}
+		return strings.Join(q, ", ")
+	}
+	switch x := st.(type) {
+	case *ast.ExprStmt:
+		return "expr " + exprStr(fset, x.X)
+	case *ast.DeclStmt:
+		gd, ok := x.Decl.(*ast.GenDecl)
+		if !ok || len(gd.Specs) != 1 {
+			return "decl ?"
+		}
+		vs, ok := gd.Specs[0].(*ast.ValueSpec)
+		if ok && vs.Type != nil && len(vs.Values) == 0 && len(vs.Names) == 1 {
+			if at, ok := vs.Type.(*ast.ArrayType); ok && at.Len != nil {
+				return "decl? " + vs.Names[0].Name + " [" + exprStr(fset, at.Len) + "]" + exprStr(fset, at.Elt)
+			}
+		}
+		if !ok || vs.Type != nil {
+			return "decl ?"
+		}
+		var names []string
+		for _, n := range vs.Names {
+			names = append(names, n.Name)
+		}
+		return "decl " + strings.Join(names, ", ") + " = " + join(vs.Values)
+	case *ast.AssignStmt:
+		return "assign " + join(x.Lhs) + " " + x.Tok.String() + " " + join(x.Rhs)
+	case *ast.IfStmt:
+		if x.Init != nil || x.Else != nil {
+			return "if ?"
+		}
+		var q []string
+		for _, b := range x.Body.List {
+			q = append(q, stmtShape(fset, b))
+		}
+		return "if " + exprStr(fset, x.Cond) + " {" + strings.Join(q, "; ") + "}"
+	case *ast.DeferStmt:
+		return "defer " + exprStr(fset, x.Call)
+	case *ast.ReturnStmt:
+		return "return " + join(x.Results)
+	}
+	return fmt.Sprintf("%T", st)
 }
 
 func cimProgram(repo, tool string) (items []string, u16order []string, nameWidth int, namePad int, lits map[string][]int64, defaultName bool) {
@@ -91,6 +194,7 @@ func cimProgram(repo, tool string) (items []string, u16order []string, nameWidth
 				}
 			}
 		case "writeName":
+			checkShapes(fset, tool, "writeName", fd.Body, nameShapes)
 			for _, st := range fd.Body.List {
 				switch x := st.(type) {
 				case *ast.AssignStmt:
@@ -113,6 +217,21 @@ func cimProgram(repo, tool string) (items []string, u16order []string, nameWidth
 				}
 			}
 		case "run":
+			// every statement of run() must be one of the known shapes: nothing may stand between reading the image and writing it
+			// (no reassignment of b, off or nam, no extra condition) without the extraction refusing
+			for _, st := range fd.Body.List {
+				sh := stmtShape(fset, st)
+				ok := false
+				for _, re := range runShapes {
+					if re.MatchString(sh) {
+						ok = true
+						break
+					}
+				}
+				if !ok {
+					panic(refusal(tool + ": run() contains a statement of an unexpected shape: " + sh))
+				}
+			}
 			ast.Inspect(fd.Body, func(n ast.Node) bool {
 				if ifs, ok := n.(*ast.IfStmt); ok {
 					if exprStr(fset, ifs.Cond) == `(== nam ""` {
